@@ -41,10 +41,10 @@ pub enum Ctx {
         s: PollingParameterNumberMessageScanner,
         a: poll::Obs,
         timeout: poll::T,
-        now: poll::T,
         ch: u8,
-        /// Some((d1, d2)) = feed of a Control Change, None = poll(ch)
-        feed: Option<(u8, u8)>,
+        /// the events of the counterexample in order: (channel, Some((d1, d2)) = feed of a Control
+        /// Change / None = poll, time) - the inductive step first, then the solver's look-ahead
+        events: Vec<(u8, Option<(u8, u8)>, poll::T)>,
     },
 }
 
@@ -79,10 +79,9 @@ pub fn attribute(prop: &str, ctx: &Ctx, max_depth: usize) -> Option<Found> {
             s,
             a,
             timeout,
-            now,
             ch,
-            feed,
-        } => poll_search(prop, *s, *a, *timeout, *now, *ch, *feed, max_depth),
+            events,
+        } => poll_search(prop, *s, *a, *timeout, *ch, events, max_depth),
     }
 }
 
@@ -104,11 +103,12 @@ fn cc14_oracle(
     a: &mut cc14::Obs,
     step_ch: u8,
     ev: CcEv,
-) -> Result<(), String> {
+) -> Result<bool, String> {
     let before = *main;
     let out = main.feed(&pnm::cc(ev.c, ev.d1, ev.d2));
     let e = cc14::spec_cc(a, ev.c, ev.d1, ev.d2);
     let got = out.map(|m| (m.channel().get(), m.msb_controller_number().get(), m.value().get()));
+    let diverged = got != e;
     match prop {
         "C08" => {
             if got != e {
@@ -136,7 +136,7 @@ fn cc14_oracle(
         }
         _ => {}
     }
-    Ok(())
+    Ok(diverged)
 }
 
 fn cc14_search(
@@ -192,7 +192,10 @@ fn cc14_dfs(
     trace.push(format!("feed CC ch{} #{}={}", ev.c, ev.d1, ev.d2));
     let r = quiet(std::panic::AssertUnwindSafe(|| cc14_oracle(prop, &mut m, &mut sh, &mut ao, ch, ev)));
     match r {
-        Ok(Ok(())) => {
+        // after the first observable deviation the observer no longer describes the real history:
+        // clauses are only evaluated up to and including that step
+        Ok(Ok(true)) => {}
+        Ok(Ok(false)) => {
             if depth_left > 0 {
                 for next in alphabet {
                     cc14_dfs(prop, m, sh, ao, ch, *next, alphabet, depth_left - 1, trace, found);
@@ -223,10 +226,11 @@ fn nrpn_oracle(
     a: &mut pnm::Obs,
     step_ch: u8,
     ev: CcEv,
-) -> Result<(), String> {
+) -> Result<bool, String> {
     let before = *main;
     let out = main.feed(&pnm::cc(ev.c, ev.d1, ev.d2));
     let e = pnm::expect_msg(pnm::spec_cc(a, ev.c, ev.d1, ev.d2));
+    let diverged = out != e;
     match prop {
         "C11" => {
             if out != e {
@@ -253,7 +257,7 @@ fn nrpn_oracle(
         }
         _ => {}
     }
-    Ok(())
+    Ok(diverged)
 }
 
 fn nrpn_search(
@@ -315,7 +319,8 @@ fn nrpn_dfs(
     trace.push(format!("feed CC ch{} #{}={}", ev.c, ev.d1, ev.d2));
     let r = quiet(std::panic::AssertUnwindSafe(|| nrpn_oracle(prop, &mut m, &mut sh, &mut ao, ch, ev)));
     match r {
-        Ok(Ok(())) => {
+        Ok(Ok(true)) => {}
+        Ok(Ok(false)) => {
             if depth_left > 0 {
                 for next in alphabet {
                     nrpn_dfs(prop, m, sh, ao, ch, *next, alphabet, depth_left - 1, trace, found);
@@ -381,15 +386,17 @@ fn poll_oracle(
     timeout: poll::T,
     step_ch: u8,
     ev: PEv,
-) -> Result<(), String> {
+) -> Result<bool, String> {
     use helgoboss_midi::verif_hooks::set_now;
     let before = *main;
+    let diverged;
     match ev {
         PEv::Feed { c, d1, d2, t } => {
             set_now(t.dur());
             let out = main.feed(&pnm::cc(c, d1, d2));
             let pre = a.ch[c as usize];
             let e = poll::spec_feed(&mut a.ch[c as usize], d1, d2, t);
+            diverged = !(poll::same(&out[0], c, e[0]) && poll::same(&out[1], c, e[1]));
             match prop {
                 "C12" => {
                     if !poll::open_corner(&pre, d1) && !(poll::same(&out[0], c, e[0]) && poll::same(&out[1], c, e[1])) {
@@ -442,6 +449,7 @@ fn poll_oracle(
             };
             let exp = pend.map_or(false, |(_, t0)| poll::expired(t, t0, timeout));
             let e = poll::spec_poll(&mut a.ch[c as usize], t, timeout);
+            diverged = !poll::same(&out, c, e);
             match prop {
                 "C12" => {
                     if !matches!(pend, Some((false, _))) && !poll::same(&out, c, e) {
@@ -480,26 +488,24 @@ fn poll_oracle(
             }
         }
     }
-    Ok(())
+    Ok(diverged)
 }
 
 #[cfg(feature = "cfg_std")]
-#[allow(clippy::too_many_arguments)]
 fn poll_search(
     prop: &str,
     s: PollingParameterNumberMessageScanner,
     a: poll::Obs,
     timeout: poll::T,
-    now: poll::T,
     ch: u8,
-    feed: Option<(u8, u8)>,
+    events: &[(u8, Option<(u8, u8)>, poll::T)],
     max_depth: usize,
 ) -> Option<Found> {
-    if !matches!(prop, "C12" | "C13" | "C14" | "C15" | "C16") {
+    if !matches!(prop, "C12" | "C13" | "C14" | "C15" | "C16") || events.is_empty() {
         return None;
     }
     // another channel that is interesting if there is one: prefer a non-initial one
-    let mut other = (ch + 1) % 16;
+    let mut other = ch ^ 1;
     for c in 0..16u8 {
         if c != ch && a.ch[c as usize].num != poll::Num::None {
             other = c;
@@ -508,18 +514,21 @@ fn poll_search(
             }
         }
     }
-    let first = match feed {
-        Some((d1, d2)) => PEv::Feed {
-            c: ch,
-            d1,
-            d2,
-            t: now,
-        },
-        None => PEv::Poll { c: ch, t: now },
-    };
+    let prefix: Vec<PEv> = events
+        .iter()
+        .map(|(c, f, t)| match f {
+            Some((d1, d2)) => PEv::Feed {
+                c: *c,
+                d1: *d1,
+                d2: *d2,
+                t: *t,
+            },
+            None => PEv::Poll { c: *c, t: *t },
+        })
+        .collect();
     for depth in 0..=max_depth {
         let mut found = None;
-        poll_dfs(prop, s, s, a, timeout, ch, other, first, depth, &mut vec![], &mut found);
+        poll_dfs(prop, s, s, a, timeout, ch, other, &prefix, depth, &mut vec![], &mut found);
         if found.is_some() {
             return found;
         }
@@ -586,7 +595,7 @@ fn poll_dfs(
     timeout: poll::T,
     ch: u8,
     other: u8,
-    ev: PEv,
+    fixed: &[PEv],
     depth_left: usize,
     trace: &mut Vec<String>,
     found: &mut Option<Found>,
@@ -594,6 +603,9 @@ fn poll_dfs(
     if found.is_some() {
         return;
     }
+    // the events of the counterexample come first, then the free continuation
+    let ev = fixed[0];
+    let rest = &fixed[1..];
     let (mut m, mut sh, mut ao) = (main, shadow, a);
     let now = match ev {
         PEv::Feed { c, d1, d2, t } => {
@@ -607,10 +619,13 @@ fn poll_dfs(
     };
     let r = quiet(std::panic::AssertUnwindSafe(|| poll_oracle(prop, &mut m, &mut sh, &mut ao, timeout, ch, ev)));
     match r {
-        Ok(Ok(())) => {
-            if depth_left > 0 {
+        Ok(Ok(true)) => {}
+        Ok(Ok(false)) => {
+            if !rest.is_empty() {
+                poll_dfs(prop, m, sh, ao, timeout, ch, other, rest, depth_left, trace, found);
+            } else if depth_left > 0 {
                 for next in poll_alphabet(&ao, timeout, now, ch, other) {
-                    poll_dfs(prop, m, sh, ao, timeout, ch, other, next, depth_left - 1, trace, found);
+                    poll_dfs(prop, m, sh, ao, timeout, ch, other, &[next], depth_left - 1, trace, found);
                     if found.is_some() {
                         break;
                     }
